@@ -43,6 +43,19 @@ def open_kf_names():
     return sorted(k['id'] for k in load_known_findings() if k.get('status') == 'open' and k.get('in_spec'))
 
 
+def family_known_finding(sc, v):
+    """An open known finding that is identified by a history shape: the generator marks the scenarios of that
+    shape (`kf_family`), the entry lists the clauses the defect can break.  A rejection of such a scenario by one
+    of those clauses is the known finding; anything else - another clause, another scenario - is reported."""
+    fam = sc.get('kf_family')
+    if not fam:
+        return None
+    for k in load_known_findings():
+        if k.get('status') == 'open' and k.get('family') == fam and v['clause'] in k.get('clauses', []):
+            return k['id']
+    return None
+
+
 def scenario_digest(trace):
     def strip(e):
         return {k: v for k, v in e.items() if k not in ('tb',)}
@@ -142,6 +155,8 @@ def judge(pid, scenarios, owned, nontrivial, tlc_mod, cfg=None, module='FBTrace.
             hit = det(sc, t, v)
             if hit:
                 break
+        if not hit:
+            hit = family_known_finding(sc, v)
         if hit:
             out.known.append((hit, t['id']))
         elif clause in owned or (set(v.get('also', [])) & owned):
